@@ -4,6 +4,7 @@ import Driver.UtilDriver
 import Driver.ConcDriver
 import Driver.HeterDriver
 import Driver.ConcLDriver
+import Driver.InvDriver
 import EventppVerif.Util.Wrappers
 import EventppVerif.Util.Removers
 /-
@@ -257,6 +258,9 @@ def main (args : List String) : IO Unit := do
     return
   if mode = "anyid" then
     UD.anyidMain lines
+    return
+  if mode = "inv" then
+    ID.main lines
     return
   if mode = "concl" then
     CLD.main lines
